@@ -454,8 +454,26 @@ def rule_scan_covers_words(ctx, R="C20/scan-covers-words"):
     ctx.check(not badi, R, "start", b.where(h), "the scan starts at sp_offset rounded up to the next word boundary", "the initial offset is not align_up(sp_offset, 8): %s" % badi[:3])
 
 
+def rule_decide_on_raw_stack(ctx, R="C20/decide-on-raw-stack"):
+    """the reference test looks at the words the TARGET had on its stack: in fill_thread_stack the scan for pointers into the principal
+    mapping must not run on a copy that sanitize_stack_copy has already rewritten (it replaces every pointer into a non-executable
+    mapping by the sentinel, so a data-only principal mapping would never be 'referenced')"""
+    b = ctx.body(R, FTS)
+    if b is None:
+        return
+    san = [bi for bi, t in b.calls(lambda c: (c.short or "").endswith("sanitize_stack_copy"))]
+    shp = [bi for bi, t in b.calls(lambda c: (c.short or "").endswith("stack_has_pointer_to_mapping"))]
+    ctx.floor(R, "stack_has_pointer_to_mapping call in fill_thread_stack", len(shp), 1)
+    bad = [(s_, p_) for s_ in san for p_ in shp if witness_path(b, s_, {p_}) is not None]
+    ctx.check(not bad, R, "scan-not-after-sanitise", b.where(shp[0]) if shp else None,
+              "no path runs sanitize_stack_copy before the reference scan (the scan sees the target's own words)",
+              "stack_has_pointer_to_mapping can run after sanitize_stack_copy on the same copy (%s): pointers into a non-executable principal mapping have been defaced by then and the stack is wrongly dropped"
+              % [(b.where(s_), b.where(p_)) for s_, p_ in bad][:2])
+
+
 def run(ctx):
     rule_scan_covers_words(ctx)
+    rule_decide_on_raw_stack(ctx)
     # every membership test of C20 reads the principal mapping's system range: aggregation must extend that range whenever it merges a
     # named part into the module (same rule instances as C13/merge-guards, C13/hull)
     from rules import c13
